@@ -5,9 +5,8 @@ cd "$(dirname "$0")"
 export GOFLAGS=-mod=mod GOPROXY=off GOSUMDB=off GOTOOLCHAIN=local GOWORK=off
 mkdir -p run/bin evidence replays
 if ls extract/*.go >/dev/null 2>&1; then
-  (cd extract && go build -o ../run/bin/extract . && ../run/bin/extract -repo /repo -out ../coq/Gen)
+  (cd extract && go build -o ../run/bin/extract . && ../run/bin/extract -repo /repo -out ../coq/Gen -status ../run/extract_status.json)
 fi
 (cd coq && ./mkproject.sh && timeout 3000 make -j16)
-cp /repo/go.sum harness/go.sum
-(cd harness && CGO_ENABLED=0 go build -tags verif -overlay overlay.json -o ../run/bin/harness .)
+./check --build-only
 echo setup done
